@@ -21,11 +21,13 @@ OPTIONAL_CLAIMS = ('C06.glob',)
 GOALS = {'quick': ['two port variables on one node', 'dotdot in a path',
                    '_path dictionary port', 'glob port', 'scalar port',
                    'nested schema port', 'glob below a glob',
-                   'inner glob child declared by a process'],
+                   'inner glob child declared by a process',
+                   '_path dictionary with the empty path'],
          'thorough': ['two port variables on one node', 'dotdot in a path',
                       '_path dictionary port', 'glob port', 'scalar port',
                       'nested schema port', 'glob below a glob',
-                      'inner glob child declared by a process']}
+                      'inner glob child declared by a process',
+                      '_path dictionary with the empty path']}
 STUBS = ['one process whose ports schema / topology are produced by a generator '
          'driven by solver-decided choices; it records the states of its first '
          'invocation and returns symbolic updates for every port variable',
@@ -207,7 +209,13 @@ def body(ctx, cfg):
             ctx.goal('scalar port')
         elif KINDS[kind] == 'pathdict':
             schema[port] = {'v': {'_default': 0}, 'u': {'_default': 0}}
-            ren = ('..', 'B', 'u') if len(base) >= 1 else ('u',)
+            if i == 0 and ctx.flag('emptypath'):
+                # '_path': () - the port is the store holding the process
+                w, base = (), parent
+                ren = ('B', 'u')
+                ctx.goal('_path dictionary with the empty path')
+            else:
+                ren = ('..', 'B', 'u') if len(base) >= 1 else ('u',)
             topo[port] = {'_path': w, 'v': ren}
             targets[(port, 'v', None)] = resolve(base, ren)
             targets[(port, 'u', None)] = base + ('u',)
